@@ -329,10 +329,14 @@ impl Directive {
                             macros: macros.clone(),
                             messages: messages.clone(),
                         };
-                        parse_file_internal(&context)?;
+                        let unfinished = parse_file_internal(&context)?;
                         include_paths
                             .borrow_mut()
                             .extend(context.include_paths.borrow().iter().cloned());
+                        // conditional which is open at the end of the file goes on here
+                        if let Some(unfinished) = unfinished {
+                            next_item = unfinished;
+                        }
                     } else {
                         bail!("wrong format for .include, expected: {} in {}", opts, point,);
                     }
